@@ -492,6 +492,10 @@ func (this *BWT) inverseBiPSIv2(src, dst []byte, count int) (uint, uint, error) 
 	nbTasks := min(int(this.jobs), chunks)
 	jobsPerTask, _ := internal.ComputeJobsPerTask(make([]uint, nbTasks), uint(chunks), uint(nbTasks))
 	var wg sync.WaitGroup
+
+	if verifOn {
+		verifBWT(this, -1, 0, count)
+	}
 	var failures int32
 
 	for j, c := 0, 0; j < nbTasks; j++ {
@@ -630,6 +634,7 @@ func (this *BWT) inverseBiPSIv2Task(dst []byte, buckets []int, fastBits []uint16
 	for c < lastChunk {
 		end := min(start+ckSize, total-1)
 		p := int(indexes[c])
+		last := start - 1
 
 		for i := start + 1; i <= end; i += 2 {
 			s := fastBits[p>>shift]
@@ -641,6 +646,14 @@ func (this *BWT) inverseBiPSIv2Task(dst []byte, buckets []int, fastBits []uint16
 			dst[i-1] = byte(s >> 8)
 			dst[i] = byte(s)
 			p = int(data[p])
+
+			if verifOn {
+				last = i
+			}
+		}
+
+		if verifOn && last >= start {
+			verifBWT(this, firstChunk, start, last)
 		}
 
 		start = end
